@@ -55,6 +55,8 @@ def _block(rng, depth, include_ok, hdr_names):
 def _header(rng, name, idx, others):
     style = rng.choice(["guard", "once", "none", "guard"])
     body = _block(rng, 0, bool(others) and rng.random() < 0.4, others)
+    if rng.random() < 0.4:
+        body.insert(rng.randrange(len(body) + 1), L("comment"))      # a C comment line: not code in a C header
     body.append(L("code", text=f"int {name[0]}{idx};"))
     if style == "guard":
         g = f"G_{name[0].upper()}{idx}"
@@ -81,7 +83,10 @@ def random_case(rng, features=()):
     srcs = []
     for si in range(rng.randint(1, 3)):
         d = rng.choice(["cb/src", "cb/src/sub"])
-        rel = f"{d}/s{si}." + ("F90" if "fortran" in features else "c")
+        ext = "F90" if "fortran" in features else "c"
+        if "mixed" in features:
+            ext = "F90" if si % 2 == 0 else "c"
+        rel = f"{d}/s{si}." + ext
         body = []
         for _ in range(rng.randint(1, 3)):
             h = rng.choice(HEADERS)
@@ -153,6 +158,8 @@ def random_case(rng, features=()):
     excludes = []
     if "exclude" in features:
         excludes = rng.sample(["*.h", "sub/", "s0.c", "inc/*", "/sys", "g.h"], rng.randint(1, 2))
+        if rng.random() < 0.3:
+            excludes = rng.choice([["*.h", "!h.h"], ["inc/*", "!inc/g.h"], ["*.h", "!cfg.h", "s1.c"]])   # order matters
     return {"files": files, "links": links, "platforms": platforms, "excludes": excludes, "codebase": "cb"}
 
 
